@@ -161,6 +161,78 @@ def all_weak_orders(k):
     return sorted(seen)
 
 
+def compositions(k):
+    """every composition of k (ordered tuple of tie-group sizes, best place first): 2^(k-1) of them"""
+    out = []
+    for mask in range(1 << (k - 1)):
+        sizes, cur = [], 1
+        for b in range(k - 1):
+            if mask >> b & 1:
+                sizes.append(cur)
+                cur = 1
+            else:
+                cur += 1
+        sizes.append(cur)
+        out.append(tuple(sizes))
+    return out
+
+
+SIZE_PATTERNS = ["ones", "eights", "ramp", "one_big_first", "one_big_last", "alternating", "fours", "random"]
+
+
+def shape_cases(rng, model, k, per_pattern=1):
+    """Systematic SHAPES for k teams: every tie-group composition of k (2^(k-1): three-way ties, two separate tie groups,
+    ties that include the first or the last place, all tied ...), the groups dealt to the teams in random listing order,
+    combined in turn with team-size patterns (all single, all eight, 1..k ramp, one big team first/last, alternating 1/4,
+    all four, random) - the games on which a formula that is only wrong for a particular number of teams, team size or tie
+    structure shows.  Yields (case, meta)."""
+    comps = compositions(k)
+    for ci, comp in enumerate(comps):
+        for rep in range(per_pattern):
+            pat = SIZE_PATTERNS[(ci + rep * 3 + k) % len(SIZE_PATTERNS)]
+            cfg = gen_cfg(rng)
+            b = cfg["beta"]
+            if pat == "ones":
+                sizes = [1] * k
+            elif pat == "eights":
+                sizes = [8] * k
+            elif pat == "ramp":
+                sizes = [1 + i % 8 for i in range(k)]
+            elif pat == "one_big_first":
+                sizes = [8] + [1] * (k - 1)
+            elif pat == "one_big_last":
+                sizes = [1] * (k - 1) + [7]
+            elif pat == "alternating":
+                sizes = [1 if i % 2 else 4 for i in range(k)]
+            elif pat == "fours":
+                sizes = [4] * k
+            else:
+                sizes = [rng.randint(1, 8) for _ in range(k)]
+            sub = rng.choice(["typical", "typical", "wide", "mismatch_lite"])
+            teams = []
+            for i, n in enumerate(sizes):
+                t = []
+                for j in range(n):
+                    if sub == "mismatch_lite":
+                        mu, sg = (6 + 3 * (i % 3) - 2 * (i % 2)) * b / n + rng.gauss(0, 0.3 * b), 10 ** rng.uniform(-1.5, 0.3) * b
+                    else:
+                        mu, sg = _player(rng, sub, b)
+                        mu = mu / n if n >= 4 else mu
+                    t.append([max(-20 * b, min(20 * b, mu)), sg, f"s{i}_{j}"])
+                teams.append(t)
+            levels = []
+            for g, sz in enumerate(comp):
+                levels += [g] * sz
+            rng.shuffle(levels)
+            sel, vals, style = outcome_kwargs(rng, levels, style=rng.choice(["int", "int0", "neg", "float"]))
+            vals, tags = tag_vals(vals)
+            case = dict(model=model, cfg=cfg, teams=teams, sel=sel, vals=vals, call={})
+            if tags:
+                case["vals_tags"] = tags
+            meta = dict(regime=f"shape/{pat}", levels=levels, enc=style, ties=tie_shape(levels), k=k, composition=list(comp))
+            yield case, meta
+
+
 def tie_shape(levels):
     k = len(levels)
     nl = len(set(levels))
